@@ -24,6 +24,7 @@ def types_cover(F):
     for label, fn in sites.items():
         r.analysed.append(fn["path"])
         per_variant = {}
+        unclear = {}
         for m in walk(fn["body"]):
             if m.get("k") != "Match":
                 continue
@@ -42,9 +43,15 @@ def types_cover(F):
                             refs = _effective_refs(label, arm, leaf)
                             if label == "encode_type":
                                 refs = refs | _escaping_refs(fn["body"], m, arm)
+                            esc, opaque = _struct_escape_refs(label, fn["body"], m, arm)
+                            refs = refs | esc
                             todo = diverges(arm["body"])
-                            per_variant.setdefault(leaf["variant"], (set(), todo))
-                            per_variant[leaf["variant"]] = ({f for f, h in bound.items() if h in refs}, todo)
+                            prev = per_variant.get(leaf["variant"], (set(), False))
+                            # several matches may each handle part of a variant's fields (`match self {V{a,..} => ..}` for the
+                            # definition, a helper's match for the shared attributes): the uses add up
+                            per_variant[leaf["variant"]] = (prev[0] | {f for f, h in bound.items() if h in refs}, todo or prev[1])
+                            if opaque:
+                                unclear.setdefault(leaf["variant"], set()).update(bound)
         used[label] = per_variant
         for v, vd in variants.items():
             want = {f["name"] for f in vd["fields"]} - {"tag"}
@@ -54,6 +61,9 @@ def types_cover(F):
                 r.info.append("%s: Types::%s is not encodable (todo!())" % (label, v))
                 continue
             ok = got == want
+            if not ok and (want - got) <= unclear.get(v, set()) and not (got - want):
+                r.undecided("%s of Types::%s: field(s) %s leave a helper inside a value whose later use is not followed" % (label, v, sorted(want - got)))
+                continue
             r.ob(ok, {"site": label, "variant": v, "fields_used": sorted(got)})
             if not ok:
                 r.violate("%s | %s %s" % (fn["path"], v, "+".join(sorted(want - got)) or "extra:" + "+".join(sorted(got - want))), F.loc(fn),
@@ -67,6 +77,69 @@ def types_cover(F):
             r.violate("hash/eq coherence | %s" % v, F.loc(sites["hash"]), "Hash and PartialEq of Types::%s use different field sets (%s vs %s): equal types could get different dedup slots" % (v, sorted(a), sorted(b)))
     r.count("types_variants", len(variants))
     return r
+
+
+def _struct_escape_refs(label, body, m, arm):
+    """A helper (inlined at its call) whose value is `match self { V{a, b, ..} => S { a, b: *b } }`: the bindings leave the
+    match as fields of an S.  They count as used where the caller (1) destructures that S and hashes / compares the pieces, or
+    (2) compares the whole S with the S the same helper builds for the other operand (derived PartialEq: field by field).
+    → (hids credited, opaque) — opaque: the value does leave in a struct but neither use was recognised."""
+    tails = [t for t in _tail_values(arm["body"]) if isinstance(t, dict) and t.get("k") == "Struct" and isinstance(t.get("fields"), list) and "pats" not in t]
+    if not tails:
+        return set(), False
+    holder = None
+    for c in walk(body):
+        if c.get("k") in ("Call", "MethodCall") and isinstance(c.get("inlined"), dict):
+            hb = peel(c["inlined"]["body"])
+            while isinstance(hb, dict) and hb.get("k") == "Block" and not hb.get("stmts") and hb.get("expr") is not None:
+                hb = peel(hb["expr"])
+            if hb is m:
+                holder = c
+    if holder is None:
+        return set(), False
+    out = set()
+    lit = tails[0]
+    S = lit.get("adt")
+    by_field = {fname: _local_hids(val) for fname, val in lit["fields"] if isinstance(val, dict)}
+    recognised = False
+    # (1) `let S { a, b } = helper(self);` then a.hash(..) / a == ..
+    for st in walk(body):
+        if st.get("k") == "Let" and "init" in st and peel(st["init"]) is holder and st["pat"].get("k") == "Struct" and st["pat"].get("adt") == S:
+            recognised = True
+            for fname, sub in st["pat"]["fields"]:
+                if sub.get("k") != "Binding":
+                    continue
+                for c in walk(body):
+                    hit = False
+                    if c.get("k") in ("Call", "MethodCall"):
+                        cal = (c.get("callee") or "") + " " + (c.get("inst") or "")
+                        if label == "hash" and ("hash::Hash::hash" in cal or "hash::Hasher::write" in cal) and sub["hid"] in _local_hids(c):
+                            hit = True
+                        if label != "hash" and sub["hid"] in _local_hids(c):
+                            hit = True
+                    if c.get("k") == "Binary" and c.get("op") in ("==", "!=") and sub["hid"] in _local_hids(c):
+                        hit = True
+                    if hit:
+                        out |= by_field.get(fname, set())
+    # (2) `helper(self) == helper(other)`
+    for c in walk(body):
+        sides = None
+        if c.get("k") == "Binary" and c.get("op") in ("==", "!="):
+            sides = (peel(c["a"]), peel(c["b"]))
+        elif c.get("k") == "MethodCall" and "cmp::PartialEq::eq" in (c.get("callee") or "") and c.get("args"):
+            sides = (peel(c["recv"]), peel(c["args"][0]))
+        if not sides:
+            continue
+        for x, y in (sides, sides[::-1]):
+            while isinstance(x, dict) and x.get("k") in ("AddrOf",):
+                x = peel(x["a"])
+            while isinstance(y, dict) and y.get("k") in ("AddrOf",):
+                y = peel(y["a"])
+            if x is holder and isinstance(y, dict) and isinstance(y.get("inlined"), dict) and y["inlined"].get("of") == holder["inlined"].get("of"):
+                recognised = True
+                for hs in by_field.values():
+                    out |= hs
+    return out, not recognised
 
 
 def _local_hids(e):
@@ -212,7 +285,8 @@ def name_pairing(F):
         if not ok:
             r.violate("%s | %s" % (ei["path"], X), F.loc(ei), "name subsection %s is stored in field `%s` but re-emitted by %s" % (X, field, meth or "nothing"))
     # a name subsection that is emitted under a condition is conditioned on *its own* field: `if !self.data_names.is_empty()
-    # { names.data(&self.data_names) }` — a guard that looks at another kind's names drops these whenever the other kind has none
+    # { names.data(&self.data_names) }` — a guard that reads any other field of the module (another kind's names, a re-index
+    # flag) drops names that are still stored whenever that other state says so
     from vlib.facts import guard_conditions
     for c in walk(ei["body"]):
         if not (c.get("k") == "MethodCall" and "NameSection" in (c.get("recv_ty") or "") and c.get("args")):
@@ -224,14 +298,20 @@ def name_pairing(F):
         for pol, cond in guard_conditions(ei["body"], c):
             if pol in ("pat", "notpat"):
                 continue
-            gf = {x["name"] for x in walk(cond) if x.get("k") == "Field" and x["name"].endswith("_names")}
+            # every field of the module the condition reads (first component of a `self.`-rooted place)
+            gf = set()
+            for x in walk(cond):
+                if x.get("k") == "Field":
+                    pp = place_path(x) or ""
+                    if pp.startswith("self.") and pp.count(".") >= 1:
+                        gf.add(pp.split(".")[1])
             if not gf:
                 continue
             ok = gf == {own}
             r.ob(ok, {"subsection from": own, "guarded by": sorted(gf)})
             if not ok:
                 r.violate("%s | %s guarded by %s" % (ei["path"], own, "+".join(sorted(gf - {own}))), F.loc(ei, c),
-                          "the name subsection built from `%s` is emitted only under a condition on `%s`: these names are dropped whenever the other kind has none" % (own, sorted(gf - {own})))
+                          "the name subsection built from `%s` is emitted only under a condition on `%s`: these names are dropped whenever that other state says so, although they are still stored" % (own, sorted(gf - {own})))
     return r
 
 
